@@ -105,6 +105,8 @@ package brontide
 //@   ensures !bodyWritten ==> result0 == 0
 //@   ensures bodyWritten && retn(Write, 1, 1) != nil ==> result1 != nil
 //@   site call releaseBuffers: assert len(b.nextHeaderSend) == 0 && len(b.nextBodySend) == 0
+//@   // pooled buffers go back to their pools through releaseBuffers only (which forgets them): never a second hand-back of one buffer
+//@   ensures !called(Put)
 //@   nowrap
 //@
 //@ func (b *Machine) ReadHeader
@@ -198,6 +200,9 @@ package brontide
 //@   site return nonnil nth 2: assert result0 == prev(bytesWritten)
 //@   site return nonnil nth 0: assert result0 == 0
 //@   loop 0 step bytesWritten == swrap(prev(bytesWritten) + retn(Flush, 0, 1), 64)
+//@   // a refused write (a message is still pending) leaves the pending cipher text alone: the un-flushed remainder of a partly
+//@   // transmitted message is never discarded by Write
+//@   ensures !called(ClearPendingSend) && !called(releaseBuffers)
 //@
 //@ // ---- a pooled buffer is handed back at most once: the machine forgets it when it returns it
 //@ func (b *Machine) releaseBuffers
@@ -209,10 +214,19 @@ package brontide
 //@
 //@ // ---- zero-annotation bounds sweep (tools/sweep_gen.py): index and slice expressions of these functions are in range; loops abstracted
 //@
+//@ // ---- the initiator's handshake: act two is read completely before it is processed; a connection is returned only after act two
+//@ // ---- authenticated the responder (the key that was dialled) and act three went out
 //@ func Dial
 //@   props C11
 //@   loop * havoc
 //@   bounds-safe
+//@   site call Write nth 0: assert retn(GenActOne, 1) == nil
+//@   site call ReadFull: assert arg(1) == sliceof(actTwo) && retn(Write, 1, 0) == nil
+//@   site call RecvActTwo: assert retn(ReadFull, 1) == nil
+//@   site call GenActThree: assert ret(RecvActTwo) == nil
+//@   site call Write nth 1: assert retn(GenActThree, 1) == nil
+//@   ensures result1 == nil ==> called(RecvActTwo) && ret(RecvActTwo) == nil && retn(Write, 1, 1) == nil && result0 != nil
+//@   site call NewBrontideMachine: assert arg(0) && arg(1) == local && arg(2) == netAddr.IdentityKey
 //@
 //@ func (c *Conn) ReadNextMessage
 //@   props C11
@@ -287,10 +301,19 @@ package brontide
 //@   loop * havoc
 //@   bounds-safe
 //@
+//@ // ---- the responder's handshake: each act is read completely (io.ReadFull - however the transport fragments it) before it is processed,
+//@ // ---- the acts are processed in order, and a connection is handed to Accept only after act three authenticated the peer
 //@ func (l *Listener) doHandshake
 //@   props C11
 //@   loop * havoc
 //@   bounds-safe
+//@   site call ReadFull nth 0: assert arg(1) == sliceof(actOne)
+//@   site call RecvActOne: assert retn(ReadFull, 1, 0) == nil
+//@   site call GenActTwo: assert ret(RecvActOne) == nil
+//@   site call Write: assert retn(GenActTwo, 1) == nil
+//@   site call ReadFull nth 1: assert arg(1) == sliceof(actThree) && retn(Write, 1) == nil
+//@   site call RecvActThree: assert retn(ReadFull, 1, 1) == nil
+//@   site call acceptConn: assert called(RecvActThree) && ret(RecvActThree) == nil && arg(1) == brontideConn
 //@
 //@ func (l *Listener) acceptConn
 //@   props C11
